@@ -512,6 +512,137 @@ theorem wireUp_free (s s' : St) (hf : FreeInv s) (node : Nat) (ws : List Wire) (
       injection h with h; injection h with e1 e2; subst e1
       exact completeOp_free s1 s2 (wireUpPorts_free node ws s s1 0 tys1 hf h1) node tys1 h2
 
+/-! ### edge kinds: a link joins two order ports or two non-order ports -/
+
+/-- every link joins two order ports (offset −1 on both ends) or two ports that are not order ports -/
+def KindInv (s : St) : Prop := ∀ l ∈ linksList s, (l.1.2 = -1 ↔ l.2.2 = -1)
+
+theorem kindInv_same_links {s s' : St} (h : KindInv s) (e : linksList s' = linksList s) : KindInv s' := by
+  intro l hl; rw [e] at hl; exact h l hl
+
+/-- `_get_dataflow_type(wire)` answers for no order port: `_sig_port_type` refuses offset −1, and the order port of
+    a `Call` is not a value port -/
+theorem getDataflowType_not_order (s : St) (w : Wire) (t : Ty) (h : getDataflowType s w = .ok t) : w.2 ≠ -1 := by
+  intro e
+  unfold getDataflowType at h
+  cases ho : nodeOp s w.1 with
+  | error er => simp [ho] at h
+  | ok op =>
+    simp only [ho, e] at h
+    unfold Op.hugrPortType at h
+    by_cases hd : op.isDataflowOp = true
+    · simp only [hd, if_true] at h
+      unfold Op.portType at h
+      simp only [hd, if_true, bind, Except.bind, pure, Except.pure] at h
+      cases hs : Op.outerSig op with
+      | error er => simp [hs] at h
+      | ok sg => simp [hs, Op.sigPortType] at h
+    · simp only [hd] at h
+      cases op <;> simp [Op.hugrPortKind, Op.portKind, bind, Except.bind, pure, Except.pure] at h
+
+theorem kindInv_addLink (s s' : St) (hl : LInv s.links) (hk : KindInv s) (a b : Port)
+    (hab : a.2 = -1 ↔ b.2 = -1) (h : Store.addLink s a b = .ok s') : KindInv s' := by
+  obtain ⟨_, _, a3⟩ := addLink_loc s s' hl a b h
+  intro l hm
+  rw [a3] at hm
+  rcases List.mem_append.mp hm with h' | h'
+  · exact hk l h'
+  · have : l = (a, b) := by simpa using h'
+    subst this; exact hab
+
+theorem kindInv_addOrderLink (s s' : St) (hl : LInv s.links) (hk : KindInv s) (a b : Nat)
+    (h : Store.addOrderLink s a b = .ok s') : KindInv s' := by
+  obtain ⟨_, _, b3, _, _⟩ := addOrderLink_loc s s' hl a b h
+  intro l hm
+  rcases b3 l hm with h' | h'
+  · exact hk l h'
+  · subst h'; simp
+
+theorem wireUpPortBase_kind (s s' : St) (hl : LInv s.links) (hk : KindInv s) (node off : Nat) (w : Wire) (t : Ty)
+    (h : wireUpPortBase s node off w = .ok (s', t)) : KindInv s' := by
+  unfold wireUpPortBase at h
+  cases ha : ancestralSibling s w.1 node with
+  | error e => simp [ha] at h
+  | ok oa =>
+    cases oa with
+    | none => simp [ha] at h
+    | some anc =>
+      simp only [ha] at h
+      unfold linkPort at h
+      by_cases hne : anc = node
+      · subst hne
+        simp only [ne_eq, not_true_eq_false, if_false] at h
+        cases hkk : Store.addLink s w (anc, (off : Int)) with
+        | error e => simp [hkk, liftS] at h
+        | ok s2 =>
+          simp only [hkk, liftS] at h
+          cases hg : getDataflowType s2 w with
+          | error e => simp [hg] at h
+          | ok t' =>
+            simp only [hg] at h
+            injection h with h; injection h with h1 h2; subst h1
+            have hw := getDataflowType_not_order s2 w t' hg
+            exact kindInv_addLink s s2 hl hk _ _ (by simp [hw]) hkk
+      · simp only [ne_eq, hne, not_false_eq_true, if_true] at h
+        cases ho : Store.addOrderLink s w.1 anc with
+        | error e => simp [ho, liftS] at h
+        | ok s1 =>
+          simp only [ho, liftS] at h
+          obtain ⟨b1, _, _, _, _⟩ := addOrderLink_loc s s1 hl _ _ ho
+          have k1 := kindInv_addOrderLink s s1 hl hk _ _ ho
+          cases hkk : Store.addLink s1 w (node, (off : Int)) with
+          | error e => simp [hkk] at h
+          | ok s2 =>
+            simp only [hkk] at h
+            cases hg : getDataflowType s2 w with
+            | error e => simp [hg] at h
+            | ok t' =>
+              simp only [hg] at h
+              injection h with h; injection h with h1 h2; subst h1
+              have hw := getDataflowType_not_order s2 w t' hg
+              exact kindInv_addLink s1 s2 b1 k1 _ _ (by simp [hw]) hkk
+
+theorem wireUpPorts_kind (node : Nat) : ∀ (ws : List Wire) (s s' : St) (i : Nat) (tys : List Ty),
+    LInv s.links → KindInv s → wireUpPorts none node s i ws = .ok (s', tys) → KindInv s' := by
+  intro ws
+  induction ws with
+  | nil =>
+    intro s s' i tys hl hk h
+    simp only [wireUpPorts] at h
+    injection h with h; injection h with h1 h2; subst h1; exact hk
+  | cons w ws ih =>
+    intro s s' i tys hl hk h
+    simp only [wireUpPorts, wireUpPort] at h
+    cases h1 : wireUpPortBase s node i w with
+    | error e => simp [h1] at h
+    | ok r =>
+      obtain ⟨s1, t⟩ := r
+      simp only [h1] at h
+      cases h2 : wireUpPorts none node s1 (i + 1) ws with
+      | error e => simp [h2] at h
+      | ok r2 =>
+        obtain ⟨s2, ts⟩ := r2
+        simp only [h2] at h
+        injection h with h; injection h with e1 e2; subst e1
+        obtain ⟨a1, _, _⟩ := wireUpPortBase_loc s s1 hl node i w t h1
+        exact ih s1 s2 (i + 1) ts a1 (wireUpPortBase_kind s s1 hl hk node i w t h1) h2
+
+theorem wireUp_kind (s s' : St) (hl : LInv s.links) (hk : KindInv s) (node : Nat) (ws : List Wire) (tys : List Ty)
+    (h : wireUp s none node ws = .ok (s', tys)) : KindInv s' := by
+  unfold wireUp at h
+  cases h1 : wireUpPorts none node s 0 ws with
+  | error e => simp [h1] at h
+  | ok r =>
+    obtain ⟨s1, tys1⟩ := r
+    simp only [h1] at h
+    cases h2 : completeOp s1 node tys1 with
+    | error e => simp [h2] at h
+    | ok s2 =>
+      simp only [h2] at h
+      injection h with h; injection h with e1 e2; subst e1
+      obtain ⟨_, b2, _⟩ := completeOp_frame s1 s2 node tys1 h2
+      exact kindInv_same_links (wireUpPorts_kind node ws s s1 0 tys1 hl hk h1) b2
+
 /-! ### adding a node -/
 
 theorem addNode_loc (s s' : St) (hf : FreeInv s) (op : Op) (parent : Option Nat) (k : Option Nat) (md : Serial.Meta)
@@ -548,36 +679,40 @@ structure LInvS (s : St) : Prop where
   links : LInv s.links
   free : FreeInv s
   loc : LocInv s
+  kind : KindInv s
 
 theorem linvS_addNode (s s' : St) (hs : LInvS s) (op : Op) (parent : Option Nat) (k : Option Nat) (md : Serial.Meta)
     (n : Nat) (h : Store.addNode s op parent k md = .ok (s', n)) : LInvS s' := by
   obtain ⟨a1, a2, a3, a4⟩ := addNode_loc s s' hs.free op parent k md n h
-  exact ⟨by rw [a4]; exact hs.links, a1, locInv_same_links a2 hs.loc (fun l hm => by rw [a3] at hm; exact hm)⟩
+  exact ⟨by rw [a4]; exact hs.links, a1, locInv_same_links a2 hs.loc (fun l hm => by rw [a3] at hm; exact hm),
+    kindInv_same_links hs.kind a3⟩
 
 theorem linvS_wireUp (s s' : St) (hs : LInvS s) (node : Nat) (ws : List Wire) (tys : List Ty)
     (h : wireUp s none node ws = .ok (s', tys)) : LInvS s' := by
   obtain ⟨a1, _, a3⟩ := wireUp_loc s s' hs.links hs.loc node ws tys h
-  exact ⟨a1, wireUp_free s s' hs.free node ws tys h, a3⟩
+  exact ⟨a1, wireUp_free s s' hs.free node ws tys h, a3, wireUp_kind s s' hs.links hs.kind node ws tys h⟩
 
 theorem linvS_setOp (s s' : St) (hs : LInvS s) (i : Nat) (op : Op)
     (hst : ∀ op0, nodeOp s i = .ok op0 → staticIn op = staticIn op0) (h : setOp s i op = .ok s') : LInvS s' := by
   obtain ⟨f, l, k⟩ := setOp_frame s s' i op hst h
   exact ⟨by rw [k]; exact hs.links, setOp_free s s' hs.free i op h,
-    locInv_same_links f hs.loc (fun x hm => by rw [l] at hm; exact hm)⟩
+    locInv_same_links f hs.loc (fun x hm => by rw [l] at hm; exact hm), kindInv_same_links hs.kind l⟩
 
 theorem linvS_updateNodeOuts (s s' : St) (hs : LInvS s) (i k : Nat) (h : Store.updateNodeOuts s i k = .ok s') :
     LInvS s' := by
   obtain ⟨f, l, kk⟩ := updateNodeOuts_frame s s' i k h
   exact ⟨by rw [kk]; exact hs.links, updateNodeOuts_free s s' hs.free i k h,
-    locInv_same_links f hs.loc (fun x hm => by rw [l] at hm; exact hm)⟩
+    locInv_same_links f hs.loc (fun x hm => by rw [l] at hm; exact hm), kindInv_same_links hs.kind l⟩
 
 /-- a link into the static input port of its target (`call`, `load`, `load_function`) -/
 theorem linvS_addStaticLink (s s' : St) (hs : LInvS s) (a : Port) (n off : Nat)
-    (hst : ∃ op, nodeOp s n = .ok op ∧ staticIn op = some off) (h : Store.addLink s a (n, (off : Int)) = .ok s') :
+    (hst : ∃ op, nodeOp s n = .ok op ∧ staticIn op = some off) (ha : a.2 ≠ -1)
+    (h : Store.addLink s a (n, (off : Int)) = .ok s') :
     LInvS s' := by
   obtain ⟨a1, a2, a3⟩ := addLink_loc s s' hs.links _ _ h
   have F : HFrame s s' := hframe_of_grow a2 (fun l hm => by rw [a3]; simp [hm])
-  refine ⟨a1, addLink_free s s' hs.free _ _ h, locInv_step F hs.loc ?_⟩
+  refine ⟨a1, addLink_free s s' hs.free _ _ h, locInv_step F hs.loc ?_,
+    kindInv_addLink s s' hs.links hs.kind _ _ (by simp [ha]) h⟩
   intro l hm hn _ hns
   rw [a3] at hm
   have : l = (a, (n, (off : Int))) := by
@@ -591,7 +726,15 @@ theorem linvS_addStaticLink (s s' : St) (hs : LInvS s) (a : Port) (n off : Nat)
 
 theorem linvS_init (op : Op) (md : Serial.Meta) : LInvS (Store.init op md : St) := by
   have h := Store.sinv_init (μ := Serial.Meta) op md
-  refine ⟨h.links, h.free, ?_⟩
+  have hnil : linksList (Store.init op md : St) = [] := by
+    unfold Store.init
+    simp only []
+    split
+    · rename_i s i heq
+      have e := (Store.addNodeRaw_spec _ s ⟨by intro i; simp, by simp⟩ op none (some 0) md i heq).2.2.2.2.1
+      simp [linksList, e, BiMap.empty]
+    · simp [linksList, BiMap.empty]
+  refine ⟨h.links, h.free, ?_, fun l hl => by rw [hnil] at hl; cases hl⟩
   intro l hl
   have : linksList (Store.init op md : St) = [] := by
     unfold Store.init
